@@ -711,6 +711,11 @@ class TaskScenario(ScenarioData):
             if not self.property.get("start", self.scenarioIdx):
                 self.property[("start", self.scenarioIdx)] = actual_start
 
+            # A task that completes in the very slot of its first booking leaves the loop before
+            # that booking is recorded above
+            if first_booked_slot is None and self.doneEffort > previous_effort:
+                first_booked_slot = self.currentSlotIdx
+
             # Set end time
             # For ALAP, end is based on the actual first booking, not the constraint position
             # The constraint tells us when to end BY, but actual end is when work finishes
